@@ -7,6 +7,7 @@ pub mod life;
 pub mod hb;
 pub mod open;
 pub mod pool;
+pub mod dest;
 
 pub fn run(args: &Args, log: &Log) -> Result<(), String> {
     match args.driver.as_str() {
@@ -18,6 +19,7 @@ pub fn run(args: &Args, log: &Log) -> Result<(), String> {
         "hb" => hb::run(args, log),
         "open" => open::run(args, log),
         "pool" => pool::run(args, log),
+        "dest" => dest::run(args, log),
         d => Err(format!("unknown driver {d}")),
     }
 }
